@@ -95,8 +95,9 @@ def errId (h : List UInt8) : Option (List UInt8) :=
 
 /-- Verdict on one four-line group. `strict := true` compares the raw line lengths only
 (the pinned `validate`); `false` lets the trimmed lengths decide when the raw ones differ
-(the repaired code). -/
-def fqGroup (strict : Bool) (h s p q : List UInt8) (byte line : Nat) : FqItem :=
+(the repaired code).  `atEof`: the quality line is ended by the end of the input, not by a
+terminator – then the trimmed lengths alone decide (repaired code). -/
+def fqGroup (strict : Bool) (h s p q : List UInt8) (byte line : Nat) (atEof : Bool := false) : FqItem :=
   let c0 := h.headD LF
   if c0 ≠ AT then .err (.invalidStart c0 line) byte line
   else
@@ -105,7 +106,7 @@ def fqGroup (strict : Bool) (h s p q : List UInt8) (byte line : Nat) : FqItem :=
     else
       let ts := trimCr s
       let tq := trimCr q
-      if s.length ≠ q.length ∧ (strict ∨ ts.length ≠ tq.length) then
+      if (s.length ≠ q.length ∧ (strict ∨ ts.length ≠ tq.length)) ∨ (atEof ∧ ¬ strict ∧ ts.length ≠ tq.length) then
         .err (.unequalLengths ts.length tq.length line (errId h)) byte line
       else .record { byte := byte, line := line, head := trimCr (h.drop 1), seq := ts, qual := tq }
 
@@ -118,7 +119,7 @@ def fqGo (strict : Bool) : List (List UInt8) → Nat → Nat → List FqItem
     | .err e b l => [.err e b l]
   | [h, s, p, q], byte, line =>
     -- three terminated pieces, the quality line is ended by the end of the input
-    [fqGroup strict h s p q byte line]
+    [fqGroup strict h s p q byte line true]
   | ps, byte, line =>
     -- fewer than three terminated pieces
     if ps.all blank then []
